@@ -1,4 +1,5 @@
-// C19 dynamic harness for pkg/adapters/iris: the real middleware in a real iris application, in-process.
+// C19 dynamic harness for pkg/adapters/iris: the real middleware in a real iris application, in-process, under the
+// default and under forced execution rules.
 package main
 
 import (
@@ -16,36 +17,56 @@ const key = "iris/middleware.go:SentinelMiddleware.func1"
 func main() {
 	probe.Init()
 	for _, cs := range probe.Plan() {
-		custom, sc := cs.Custom, cs.Sc
-		// default resource name: METHOD:URL
-		r := probe.New(key, sc, false, func(id string) string { return "GET:/" + id })
-		var opts []siris.Option
-		if custom {
-			opts = append(opts, siris.WithBlockFallback(func(c iris.Context) {
-				r.Fallback()
-				c.StatusCode(http.StatusServiceUnavailable)
-				c.StopExecution()
-			}))
-		}
-		app := iris.New()
-		app.Logger().SetLevel("disable")
-		app.Use(siris.SentinelMiddleware(opts...))
-		app.Get("/"+r.ID, func(c iris.Context) {
-			if err := r.InHandler(); err != nil {
-				c.StopWithError(http.StatusInternalServerError, err)
-				return
+		// forced: iris execution rules under which the framework itself calls ctx.Next() after every handler that
+		// neither called it nor stopped the context — returning from the middleware does not end the chain there
+		for _, forced := range []bool{false, true} {
+			custom, sc := cs.Custom, cs.Sc
+			if forced && !sc.Blocked {
+				// Only the blocked scenarios are driven under forced rules.  In iris v12.2.0 a `ctx.Next()` inside a forced
+				// handler is only *recorded* (Context.ProceedAndReportIfStopped), the framework advances afterwards: no
+				// middleware can bracket its handler there (observed: `entryAsked,exit,handlerRun`, or — for the route
+				// registered first, whose middleware slice is wrapped once — the handler is not reached at all).  That is the
+				// framework's doing, described in notes/C19.md; the question asked here is the one of seeded change r3-3:
+				// does a blocked request reach the handler when the framework advances the chain by itself?
+				continue
 			}
-			c.WriteString("ok")
-		})
-		if err := app.Build(); err != nil {
-			panic(err)
+			// default resource name: METHOD:URL
+			r := probe.New(key, sc, false, func(id string) string { return "GET:/" + id })
+			var opts []siris.Option
+			if custom {
+				opts = append(opts, siris.WithBlockFallback(func(c iris.Context) {
+					r.Fallback()
+					c.StatusCode(http.StatusServiceUnavailable)
+					c.StopExecution()
+				}))
+			}
+			app := iris.New()
+			app.Logger().SetLevel("disable")
+			if forced {
+				app.SetExecutionRules(iris.ExecutionRules{
+					Begin: iris.ExecutionOptions{Force: true},
+					Main:  iris.ExecutionOptions{Force: true},
+					Done:  iris.ExecutionOptions{Force: true},
+				})
+			}
+			app.Use(siris.SentinelMiddleware(opts...))
+			app.Get("/"+r.ID, func(c iris.Context) {
+				if err := r.InHandler(); err != nil {
+					c.StopWithError(http.StatusInternalServerError, err)
+					return
+				}
+				c.WriteString("ok")
+			})
+			if err := app.Build(); err != nil {
+				panic(err)
+			}
+			w := httptest.NewRecorder()
+			req := httptest.NewRequest("GET", "/"+r.ID, nil)
+			r.Guard(func() { app.ServeHTTP(w, req) })
+			if !custom && w.Code == http.StatusTooManyRequests {
+				r.Rejected()
+			}
+			r.Finish()
 		}
-		w := httptest.NewRecorder()
-		req := httptest.NewRequest("GET", "/"+r.ID, nil)
-		r.Guard(func() { app.ServeHTTP(w, req) })
-		if !custom && w.Code == http.StatusTooManyRequests {
-			r.Rejected()
-		}
-		r.Finish()
 	}
 }
